@@ -190,6 +190,10 @@ public:
 
   static constexpr bool sends_done = false;
 
+  // value_types always lists the set_done pack; this says whether it can
+  // actually be produced (see dematerialize()'s sends_done)
+  static constexpr bool materializes_done = sender_traits<Source>::sends_done;
+
   static constexpr blocking_kind blocking = sender_traits<Source>::blocking;
 
   static constexpr bool is_always_scheduler_affine =
